@@ -70,14 +70,7 @@ class OutOfDomain(Exception):
     """raised by run_case when a generated case is outside the property's domain"""
 
 
-class SetupViolation(Exception):
-    """raised while a check prepares its reference state when the code under test already breaks
-    the documented contract there (e.g. the index cache is not written where the docs say);
-    carries the discrepancy, which is reported like any other"""
-
-    def __init__(self, disc):
-        super().__init__(disc["kind"])
-        self.disc = disc
+SetupViolation = harness.SetupViolation
 
 
 class CaseTimeout(BaseException):
@@ -119,6 +112,18 @@ def call_run_case(prop, case, beat=True):
         heartbeat(case)
     if "__pair__" in case:
         return run_pair(prop, case)
+    if "setup-of-stage" in case:
+        # replay of a finding made while a stage prepared its reference state
+        for tier in ("quick", "thorough"):
+            for stage in prop.plan(tier):
+                if stage["name"] == case["setup-of-stage"] and stage["kind"] == "enum":
+                    try:
+                        cases = stage["cases"]() if callable(stage["cases"]) else stage["cases"]
+                        next(iter(cases), None)
+                    except SetupViolation as e:
+                        return [e.disc]
+                    return []
+        return []
 
     def handler(signum, frame):
         raise CaseTimeout()
@@ -447,16 +452,23 @@ def run_plan(pid, tier, seed_value, shard=(0, 1), budget_s=None):
             run_machine_stage(prop, stage, seed_value * 1000 + index, stats, open_known, deadline, examples)
             stats.exhaustive = False
         else:
-            cases = stage["cases"]() if callable(stage["cases"]) else stage["cases"]
             complete = True
-            for i, case in enumerate(cases):
-                if i % count != index:
-                    continue
-                if time.monotonic() > deadline:
-                    stats.skipped_budget += 1
-                    complete = False
-                    continue
-                process_case(prop, case, stats, open_known)
+            try:
+                cases = stage["cases"]() if callable(stage["cases"]) else stage["cases"]
+                for i, case in enumerate(cases):
+                    if i % count != index:
+                        continue
+                    if time.monotonic() > deadline:
+                        stats.skipped_budget += 1
+                        complete = False
+                        continue
+                    process_case(prop, case, stats, open_known)
+            except SetupViolation as e:
+                # the enumeration itself needs a reference state that the code under test cannot deliver
+                complete = False
+                setup_case = {"setup-of-stage": stage["name"]}
+                stats.evaluations += 1
+                judge(prop, setup_case, [e.disc], stats, open_known)
             if stage.get("exhaustive") and complete:
                 if stats.exhaustive is None:
                     stats.exhaustive = True
